@@ -74,10 +74,11 @@ const (
 	arrRoute
 	arrThroughParent
 	arrMountThenHandle
+	arrMountBoth
 	arrCount
 )
 
-var arrNames = []string{"direct", "mount-emptypath-sub", "mount-sub-with-path", "route", "through-parent", "mount-then-handle"}
+var arrNames = []string{"direct", "mount-emptypath-sub", "mount-sub-with-path", "route", "through-parent", "mount-then-handle", "mount-path-plus-sub-path"}
 
 type c06Builder struct {
 	choose       func(depth int, tok string) int
@@ -172,6 +173,27 @@ func (b *c06Builder) build(m *res.Mux, routes []c06Route, depth int, prefix stri
 			sub := res.NewMux("")
 			m.Mount(t, sub)
 			b.build(sub, strip(rs), depth+1, sp)
+		case arrMountBoth:
+			// a child Mux with a path of its own (the common literal second token), mounted
+			// at the first token: the handlers live under <mount path>.<child path>
+			u, ok := "", true
+			for i, r := range rs {
+				toks := ref.Tokens(r.rel)
+				if len(toks) < 3 || ref.ClassifyToken(toks[1]) != ref.TokLiteral || (i > 0 && toks[1] != u) {
+					ok = false
+					break
+				}
+				u = toks[1]
+			}
+			if !ok {
+				sub := res.NewMux("")
+				b.build(sub, strip(rs), depth+1, sp)
+				m.Mount(t, sub)
+				break
+			}
+			sub := res.NewMux(u)
+			b.build(sub, strip(strip(rs)), depth+1, mergeDots(sp, u))
+			m.Mount(t, sub)
 		}
 	}
 }
